@@ -155,7 +155,9 @@ func (w *world) main() {
 			}
 			_ = err
 			if got != fl.total-before {
-				w.violate("return-count", fmt.Sprintf("op %d returned n=%d but the wrapped writer reported %d", i, got, fl.total-before))
+				// not part of the property (it speaks about Size() and Status()):
+				// counted, never reported
+				simrt.Probe("returned_count_differs_from_wrapped_writer")
 			}
 			if sz := pw.Size(); sz != fl.total {
 				w.violate("size-mismatch", fmt.Sprintf("after op %d (%s): Size()=%d, wrapped writer reported %d in total", i, w.ops[len(w.ops)-1], sz, fl.total))
